@@ -615,10 +615,11 @@ Definition triple_ok (strict : bool) (t : rtriple) : bool :=
 (* ------------------------------------------------------------------------------------------- *)
 (* 10. harness-facing checkers                                                                   *)
 (* ------------------------------------------------------------------------------------------- *)
-Inductive obs_ser := ObsDoc (doc : str) | ObsErrSubj | ObsErrObj | ObsOther.
+Inductive obs_ser := ObsDoc (doc : str) | ObsSomeDoc | ObsErrSubj | ObsErrObj | ObsOther.
 Definition ser_ok (indentation : N) (g : list (term * term * term)) (o : obs_ser) : bool :=
   match serialize indentation g, o with
   | SerOk d, ObsDoc d' => str_eqb d d'
+  | SerOk _, ObsSomeDoc => true          (* success observed; the bytes are compared at the other indentation *)
   | SerErrSubj, ObsErrSubj => true
   | SerErrObj, ObsErrObj => true
   | _, _ => false
@@ -640,6 +641,23 @@ Definition triple3_same (a b : term * term * term) : bool :=
   let '(s1, p1, o1) := a in let '(s2, p2, o2) := b in
   term_same s1 s2 && term_same p1 p2 && term_same o1 o2.
 
+Definition is_node_term (t : term) : bool := match t with Iri _ | Bnode _ => true | _ => false end.
+Definition is_iri_term (t : term) : bool := match t with Iri _ => true | _ => false end.
+Definition is_obj_term (t : term) : bool :=
+  match t with Iri _ | Bnode _ | LitDt _ _ | LitLang _ _ => true | _ => false end.
+(* the triples RDF/XML can express, as far as sophia is concerned *)
+Definition representable (t : term * term * term) : bool :=
+  let '(s, p, o) := t in is_node_term s && is_iri_term p && is_obj_term o.
+Definition flat_term (t : term) : bool := match t with Triple _ _ _ => false | _ => true end.
+Definition flat3 (t : term * term * term) : bool :=
+  let '(s, p, o) := t in flat_term s && flat_term p && flat_term o.
+
+Definition norm_term3 (t : term * term * term) : term * term * term :=
+  let '(s, p, o) := t in (s, p, match o with LitLang v tag => LitLang v (lower tag) | x => x end).
+(* the usual outcome: exactly the representable triples, in order, tags lower-cased *)
+Definition expected_parse (g : list (term * term * term)) : list (term * term * term) :=
+  map norm_term3 (filter representable g).
+
 (* what the model reader returns on the model's own events for graph g, as sophia terms *)
 Definition model_parse (strict : bool) (indentation : N) (g : list (term * term * term))
   : option (list (term * term * term)) :=
@@ -652,6 +670,9 @@ Definition model_parse (strict : bool) (indentation : N) (g : list (term * term 
 Definition parse_ok (strict : bool) (indentation : N) (g : list (term * term * term))
   (o : option (list (term * term * term))) : bool :=
   opt_eqb (list_eqb triple3_same) (model_parse strict indentation g) o.
+
+Definition parse_std (strict : bool) (indentation : N) (g : list (term * term * term)) : bool :=
+  parse_ok strict indentation g (Some (expected_parse g)).
 
 (* reader stream: raw element text / raw attribute value fed to the real parser *)
 Definition text_ok (raw : str) (o : option str) : bool := opt_eqb str_eqb (rio_text_lit raw) o.
